@@ -1,4 +1,5 @@
 import Tmv.Model.Merkle
+import Tmv.Gen.Facts
 /-! Model of /repo types/part_set.go: splitting, `AddPart`, reassembly. -/
 namespace Tmv.PartSet
 open Tmv.Merkle
@@ -58,5 +59,25 @@ def partBytes : Option Part → Bytes
 /-- what `GetReader` yields on a complete set -/
 def assemble (ps : PartSet) : Bytes :=
   (ps.parts.map partBytes).flatten
+
+/-! `Part.ValidateBasic` / `Proof.ValidateBasic`: what the reactor checks on a part decoded from the
+wire (`PartFromProto`) before it reaches `AddPart`. Constants come from the regenerated facts. -/
+def hashSize : Nat := 32                                   -- tmhash.Size
+def maxAunts : Nat := Tmv.Facts.merkle_MaxAunts.toNat      -- merkle.MaxAunts
+def blockPartSizeBytes : Nat := Tmv.Facts.blockPartSizeBytes.toNat
+
+inductive BasicErr | tooBig | negTotal | negIndex | leafSize | tooManyAunts | auntSize
+deriving Repr, DecidableEq
+
+def proofValidateBasic (p : Proof) : Except BasicErr Unit :=
+  if p.total < 0 then .error .negTotal
+  else if p.index < 0 then .error .negIndex
+  else if p.leafHash.length ≠ hashSize then .error .leafSize
+  else if p.aunts.length > maxAunts then .error .tooManyAunts
+  else if p.aunts.all (fun a => a.length == hashSize) then .ok () else .error .auntSize
+
+def partValidateBasic (pt : Part) : Except BasicErr Unit :=
+  if pt.bytes.length > blockPartSizeBytes then .error .tooBig
+  else proofValidateBasic pt.proof
 
 end Tmv.PartSet
